@@ -46,6 +46,8 @@ def seed_case(draw, tier):
 def call_fn(case, seed):
     shape = tuple(case["shape"])
     fn = case["fn"]
+    # the seed as a Python int or as a numpy integer scalar (same value)
+    seed = gen.typed_scalar(seed, ["python", "python", "int64", "uint32", "uint64"][(case["shape"][0] + case["shape"][1]) % 5])
     if fn == "shot_poisson":
         return detector.shot_noise(np.full(shape, case["level"]), method="poisson", seed=seed)
     if fn == "shot_gaussian":
